@@ -132,10 +132,20 @@ package bufiox
 //@   params size, capacity
 //@   requires 0 <= size
 //@   ensures len(ret) == size && size <= cap(ret) && (len(capacity) > 0 ==> capacity[0] <= cap(ret)) && fresh(ret) && writable(ret) && offset(ret) == 0 && rsize(region(ret)) == cap(ret)
+//@   ensures region(ret).$pool == 1
 //@   assigns \nothing
 
+// Pool state of a byte region (ghost, keyed by the region): 1 = obtained from mcache.Malloc and
+// not yet given back, 2 = given back with mcache.Free (must never be touched again). Nothing
+// is known about memory that did not come from the pool, so a Free of caller memory or a
+// second Free cannot satisfy the precondition.
+//@ ghost $pool int
+
 //@ extern github.com/bytedance/gopkg/lang/mcache.Free
-//@   assigns \nothing
+//@   params buf
+//@   requires region(buf).$pool == 1
+//@   ensures region(buf).$pool == 2
+//@   assigns region(buf).$pool
 
 // DefaultReader. The unread stream $u of a DefaultReader is the window of the source's stream
 // array that starts at the first buffered-but-unread byte: the buffered bytes buf[ri:] are
@@ -143,6 +153,11 @@ package bufiox
 
 //@ pred drU(r) = strwin(r.rd.$f, r.ri - len(r.buf), len(r.rd.$f) + len(r.buf) - r.ri)
 //@ pred drInv(r) = !isnil(r.rd) && 0 <= r.ri && r.ri <= len(r.buf) && eqbytes(r.buf, r.ri, drU(r), 0, len(r.buf) - r.ri) && (!isnil(r.err) ==> len(r.rd.$f) == 0 && same(r.err, r.rd.$ferr)) && (isnil(r.buf) ==> r.ri == 0)
+
+// Ownership: the reader may recycle exactly its own pool buffers: buf unless it is the caller's
+// (bufReadOnly), and the parked buffers, which are distinct live pool regions.
+//@ pred rdPool(r) = offset(r.pendingBuf) == 0 && (!r.bufReadOnly && cap(r.buf) > 0 ==> region(r.buf).$pool == 1) && (forall j int :: 0 <= j && j < len(r.pendingBuf) ==> region(r.pendingBuf[j]).$pool == 1 && region(r.pendingBuf[j]) != region(r.buf)) && (forall i int :: forall j int :: 0 <= i && i < j && j < len(r.pendingBuf) ==> region(r.pendingBuf[i]) != region(r.pendingBuf[j]))
+//@ pred rdOwns(r, g) = (g == region(r.buf) && !r.bufReadOnly) || (exists j int :: 0 <= j && j < len(r.pendingBuf) && g == region(r.pendingBuf[j]))
 
 //@ model DefaultReader.$u = strwin(self.rd.$f, self.ri - len(self.buf), len(self.rd.$f) + len(self.buf) - self.ri)
 //@ model DefaultReader.$readlen = self.ri
@@ -162,9 +177,9 @@ package bufiox
 //@ func DefaultReader.acquireSlow
 //@   arith int
 //@   props C04, C09
-//@   requires drInv(r) && 0 <= n && n <= 0x400000000000 && n > len(r.buf) - r.ri
+//@   requires drInv(r) && rdPool(r) && 0 <= n && n <= 0x400000000000 && n > len(r.buf) - r.ri
 //@   let U = drU(r)
-//@   ensures drInv(r) && same(drU(r), U) && r.ri == old(r.ri)
+//@   ensures drInv(r) && rdPool(r) && same(drU(r), U) && r.ri == old(r.ri)
 //@   ensures 0 <= ret && ret <= n && ret <= len(r.buf) - r.ri
 //@   ensures (ret == n) == (n <= len(U))
 //@   ensures ret < n ==> !isnil(r.err)
@@ -174,16 +189,16 @@ package bufiox
 //@   loop 1 decreases n - maxSize
 //@   loop 2 invariant 2 <= ncap && ncap <= 0x2000000000000
 //@   loop 2 decreases n + r.ri - ncap
-//@   loop 3 invariant drInv(r) && same(drU(r), U) && r.ri == old(r.ri) && isnil(r.err) && n > len(r.buf) - r.ri && n <= cap(r.buf) - r.ri && i == 0
+//@   loop 3 invariant drInv(r) && rdPool(r) && same(drU(r), U) && r.ri == old(r.ri) && isnil(r.err) && n > len(r.buf) - r.ri && n <= cap(r.buf) - r.ri && i == 0
 //@   loop 3 invariant fresh(r.buf) || (region(r.buf) == region(old(r.buf)) && offset(r.buf) == offset(old(r.buf)) && cap(r.buf) == cap(old(r.buf)) && len(old(r.buf)) <= len(r.buf))
 //@   loop 3 decreases (n - (len(r.buf) - r.ri)) * 101 + (100 - i)
 
 //@ func DefaultReader.acquire
 //@   arith int
 //@   props C04, C09
-//@   requires drInv(r) && 0 <= n && n <= 0x400000000000
+//@   requires drInv(r) && rdPool(r) && 0 <= n && n <= 0x400000000000
 //@   let U = drU(r)
-//@   ensures drInv(r) && same(drU(r), U) && r.ri == old(r.ri)
+//@   ensures drInv(r) && rdPool(r) && same(drU(r), U) && r.ri == old(r.ri)
 //@   ensures 0 <= ret && ret <= n && ret <= len(r.buf) - r.ri
 //@   ensures (ret == n) == (n <= len(U))
 //@   ensures ret < n ==> !isnil(r.err)
@@ -194,8 +209,8 @@ package bufiox
 //@   arith int
 //@   props C04, C09
 //@   refines Reader.Next
-//@   requires drInv(r) && n <= 0x400000000000
-//@   ensures drInv(r) && n <= 0x400000000000
+//@   requires drInv(r) && rdPool(r) && n <= 0x400000000000
+//@   ensures drInv(r) && rdPool(r) && n <= 0x400000000000
 //@   ensures err != nil && n >= 0 ==> same(err, r.rd.$ferr)
 //@   assigns r.ri, r.buf, r.bufReadOnly, r.pendingBuf, r.err, r.buf[len(r.buf):cap(r.buf)], r.rd.$f, r.rd.$ferr
 
@@ -203,16 +218,16 @@ package bufiox
 //@   arith int
 //@   props C04, C09
 //@   refines Reader.Peek
-//@   requires drInv(r) && n <= 0x400000000000
-//@   ensures drInv(r) && n <= 0x400000000000
+//@   requires drInv(r) && rdPool(r) && n <= 0x400000000000
+//@   ensures drInv(r) && rdPool(r) && n <= 0x400000000000
 //@   assigns r.buf, r.bufReadOnly, r.pendingBuf, r.err, r.buf[len(r.buf):cap(r.buf)], r.rd.$f, r.rd.$ferr
 
 //@ func DefaultReader.Skip
 //@   arith int
 //@   props C04, C09
 //@   refines Reader.Skip
-//@   requires drInv(r) && n <= 0x400000000000
-//@   ensures drInv(r) && n <= 0x400000000000
+//@   requires drInv(r) && rdPool(r) && n <= 0x400000000000
+//@   ensures drInv(r) && rdPool(r) && n <= 0x400000000000
 //@   assigns r.ri, r.buf, r.bufReadOnly, r.pendingBuf, r.err, r.buf[len(r.buf):cap(r.buf)], r.rd.$f, r.rd.$ferr
 
 //@ func DefaultReader.ReadLen
@@ -225,18 +240,19 @@ package bufiox
 //@   arith int
 //@   props C04, C09
 //@   refines Reader.ReadBinary
-//@   requires drInv(r) && region(bs) != region(r.buf) && len(bs) <= 0x400000000000
-//@   ensures drInv(r) && region(bs) != region(r.buf) && len(bs) <= 0x400000000000
+//@   requires drInv(r) && rdPool(r) && region(bs) != region(r.buf) && len(bs) <= 0x400000000000
+//@   ensures drInv(r) && rdPool(r) && region(bs) != region(r.buf) && len(bs) <= 0x400000000000
 //@   assigns bs[0:len(bs)], r.ri, r.buf, r.bufReadOnly, r.pendingBuf, r.err, r.buf[len(r.buf):cap(r.buf)], r.rd.$f, r.rd.$ferr
 
 //@ func DefaultReader.Release
 //@   arith int
 //@   props C04, C09
 //@   refines Reader.Release
-//@   requires drInv(r)
-//@   ensures drInv(r)
+//@   requires drInv(r) && rdPool(r)
+//@   ensures drInv(r) && rdPool(r)
 //@   assigns r.ri, r.buf, r.pendingBuf, r.maxSizeStats, r.buf[0:len(r.buf)]
-//@   loop 1 invariant true
+//@   assigns forall g int :: rdOwns(r, g) ==> g.$pool
+//@   loop 1 invariant -1 <= rangeindex && (forall j int :: rangeindex < j && j < len(r.pendingBuf) ==> region(r.pendingBuf[j]).$pool == 1) && region(r.buf).$pool == old(region(r.buf).$pool)
 
 // The source of a bytes reader never delivers anything: its future stream is empty.
 //@ model fakeIOReader.$f = ""
@@ -253,7 +269,7 @@ package bufiox
 //@   arith int
 //@   props C04
 //@   requires !isnil(rd)
-//@   ensures fresh(ret) && drInv(ret) && same(ret.rd, rd) && ret.ri == 0 && isnil(ret.buf) && isnil(ret.err)
+//@   ensures fresh(ret) && drInv(ret) && rdPool(ret) && same(ret.rd, rd) && ret.ri == 0 && isnil(ret.buf) && isnil(ret.err)
 
 // NewBytesReader: the reader's unread stream is exactly the given bytes. That the ghost
 // stream array of the (private, never-delivering) source extends backwards over the caller's
@@ -262,6 +278,7 @@ package bufiox
 //@   arith int
 //@   props C04, C09
 //@   ensures fresh(ret) && ret.ri == 0 && (cap(buf) > 0 ==> same(ret.buf, buf) && ret.bufReadOnly) && (cap(buf) == 0 ==> isnil(ret.buf)) && isnil(ret.err) && !isnil(ret.rd) && len(ret.rd.$f) == 0
+//@   ensures rdPool(ret)
 //@   ensures[trusted] drInv(ret)
 
 // ---------------------------------------------------------------------------------------
@@ -275,6 +292,7 @@ package bufiox
 //@ iface io.Writer.Write
 //@   params p
 //@   results n, err
+//@   impl *fakeIOWriter
 //@   ensures[ghostdef] self.$nsunk == old(self.$nsunk) + 1 && len(self.$sunk) == len(p) && eqbytes(self.$sunk, 0, p, 0, len(p))
 //@   assigns self.$nsunk, self.$sunk
 
@@ -285,6 +303,11 @@ package bufiox
 // len(buf); pending buffers and buf are different allocations.
 
 //@ pred wrInv(w) = !isnil(w.wd) && offset(w.pendingBuf) == 0 && (isnil(w.buf) || writable(w.buf)) && (isnil(w.buf) ==> len(w.pendingBuf) == 0) && (forall j int :: 0 <= j && j < len(w.pendingBuf) ==> allocated(w.pendingBuf[j]) && 0 <= len(w.pendingBuf[j]) && len(w.pendingBuf[j]) <= len(w.buf) && region(w.pendingBuf[j]) != region(w.buf)) && (forall i int :: forall j int :: 0 <= i && i <= j && j < len(w.pendingBuf) ==> len(w.pendingBuf[i]) <= len(w.pendingBuf[j]))
+//@ pred wrFake(w) = istype(w.wd, *fakeIOWriter) ==> w.disableCache && !isnil(astype(w.wd, *fakeIOWriter)) && !isnil(astype(w.wd, *fakeIOWriter).bw) && !isnil(astype(w.wd, *fakeIOWriter).bw.flushBytes)
+// Ownership: unless the cache is disabled (bytes writer: the buffers are the caller's or the
+// garbage collector's) buf and the parked buffers are distinct live pool regions.
+//@ pred wrPool(w) = wrFake(w) && (!w.disableCache ==> (cap(w.buf) > 0 ==> region(w.buf).$pool == 1) && (forall j int :: 0 <= j && j < len(w.pendingBuf) ==> region(w.pendingBuf[j]).$pool == 1) && (forall i int :: forall j int :: 0 <= i && i < j && j < len(w.pendingBuf) ==> region(w.pendingBuf[i]) != region(w.pendingBuf[j])))
+//@ pred wrOwns(w, g) = !w.disableCache && (g == region(w.buf) || (exists j int :: 0 <= j && j < len(w.pendingBuf) && g == region(w.pendingBuf[j])))
 //@ pred pbKept(w) = forall j int :: 0 <= j && j < old(len(w.pendingBuf)) ==> same(w.pendingBuf[j], old(w.pendingBuf[j]))
 //@ pred wrStays(w) = region(w.buf) == region(old(w.buf)) && offset(w.buf) == offset(old(w.buf)) && cap(w.buf) == cap(old(w.buf)) && len(w.pendingBuf) == old(len(w.pendingBuf)) && pbKept(w)
 //@ pred wrMoved(w) = fresh(w.buf) && writable(w.buf) && pbKept(w) && (cap(old(w.buf)) == 0 ? len(w.pendingBuf) == old(len(w.pendingBuf)) : len(w.pendingBuf) == old(len(w.pendingBuf)) + 1 && same(w.pendingBuf[old(len(w.pendingBuf))], old(w.buf)))
@@ -294,8 +317,8 @@ package bufiox
 //@ func DefaultWriter.acquireSlow
 //@   arith int
 //@   props C05, C09
-//@   requires wrInv(w) && 0 <= n && n <= 0x800000000000 && len(w.buf) + n > cap(w.buf)
-//@   ensures wrInv(w) && len(w.buf) == old(len(w.buf)) && len(w.buf) + n <= cap(w.buf) && wrMoved(w)
+//@   requires wrInv(w) && wrPool(w) && 0 <= n && n <= 0x800000000000 && len(w.buf) + n > cap(w.buf)
+//@   ensures wrInv(w) && wrPool(w) && len(w.buf) == old(len(w.buf)) && len(w.buf) + n <= cap(w.buf) && wrMoved(w)
 //@   assigns w.buf, w.pendingBuf, w.pendingBuf[len(w.pendingBuf):cap(w.pendingBuf)]
 //@   loop 1 invariant 4096 <= maxSize && maxSize <= 0x1000000000000
 //@   loop 1 decreases n - maxSize
@@ -305,16 +328,16 @@ package bufiox
 //@ func DefaultWriter.acquire
 //@   arith int
 //@   props C05, C09
-//@   requires wrInv(w) && 0 <= n && n <= 0x800000000000
-//@   ensures wrInv(w) && len(w.buf) == old(len(w.buf)) && len(w.buf) + n <= cap(w.buf) && (wrStays(w) || wrMoved(w))
+//@   requires wrInv(w) && wrPool(w) && 0 <= n && n <= 0x800000000000
+//@   ensures wrInv(w) && wrPool(w) && len(w.buf) == old(len(w.buf)) && len(w.buf) + n <= cap(w.buf) && (wrStays(w) || wrMoved(w))
 //@   assigns w.buf, w.pendingBuf, w.pendingBuf[len(w.pendingBuf):cap(w.pendingBuf)]
 
 //@ func DefaultWriter.Malloc
 //@   arith int
 //@   props C05, C09
 //@   refines Writer.Malloc
-//@   requires wrInv(w) && n <= 0x800000000000
-//@   ensures wrInv(w) && n <= 0x800000000000
+//@   requires wrInv(w) && wrPool(w) && n <= 0x800000000000
+//@   ensures wrInv(w) && wrPool(w) && n <= 0x800000000000
 //@   ensures (err == nil) == (isnil(old(w.err)) && n >= 0)
 //@   ensures !isnil(old(w.err)) ==> same(err, old(w.err))
 //@   ensures err == nil ==> len(buf) == n && region(buf) == region(w.buf) && offset(buf) == offset(w.buf) + old(len(w.buf)) && len(w.buf) == old(len(w.buf)) + n && (wrStays(w) || wrMoved(w))
@@ -325,8 +348,8 @@ package bufiox
 //@   arith int
 //@   props C05, C09
 //@   refines Writer.WriteBinary
-//@   requires wrInv(w)
-//@   ensures wrInv(w)
+//@   requires wrInv(w) && wrPool(w)
+//@   ensures wrInv(w) && wrPool(w)
 //@   ensures (err == nil) == isnil(old(w.err))
 //@   ensures !isnil(old(w.err)) ==> same(err, old(w.err)) && n == 0
 //@   ensures err == nil ==> n == len(bs) && len(w.buf) == old(len(w.buf)) + n && eqbytes(w.buf, old(len(w.buf)), old(snap(bs)), 0, n) && (wrStays(w) || wrMoved(w))
@@ -344,24 +367,56 @@ package bufiox
 // whenever. pbLo(w, j) is where the part backed by pending buffer j starts.
 
 //@ pred pbLo(w, j) = j <= 0 ? 0 : len(w.pendingBuf[j-1])
-//@ pred sunkPending(w) = forall j int :: 0 <= j && j < old(len(w.pendingBuf)) ==> eqbytes(w.wd.$sunk, old(pbLo(w, j)), old(snap(w.pendingBuf[j])), old(pbLo(w, j)), old(len(w.pendingBuf[j]) - pbLo(w, j)))
-//@ pred sunkBuf(w) = eqbytes(w.wd.$sunk, old(pbLo(w, len(w.pendingBuf))), old(snap(w.buf)), old(pbLo(w, len(w.pendingBuf))), old(len(w.buf) - pbLo(w, len(w.pendingBuf))))
+//@ pred outPending(w, S) = forall j int :: 0 <= j && j < old(len(w.pendingBuf)) ==> eqbytes(S, old(pbLo(w, j)), old(snap(w.pendingBuf[j])), old(pbLo(w, j)), old(len(w.pendingBuf[j]) - pbLo(w, j)))
+//@ pred outBuf(w, S) = eqbytes(S, old(pbLo(w, len(w.pendingBuf))), old(snap(w.buf)), old(pbLo(w, len(w.pendingBuf))), old(len(w.buf) - pbLo(w, len(w.pendingBuf))))
+//@ pred wrLive(w) = isnil(old(w.err)) && !isnil(old(w.buf))
+//@ pred wrIsFake(w) = istype(w.wd, *fakeIOWriter)
 
 //@ func DefaultWriter.Flush
 //@   arith int
 //@   props C05, C09
 //@   refines Writer.Flush
-//@   requires wrInv(w)
-//@   ensures wrInv(w)
+//@   requires wrInv(w) && wrPool(w)
+//@   ensures wrInv(w) && wrPool(w)
 //@   ensures !isnil(old(w.err)) ==> same(err, old(w.err)) && same(w.buf, old(w.buf)) && same(w.pendingBuf, old(w.pendingBuf)) && w.wd.$nsunk == old(w.wd.$nsunk)
 //@   ensures isnil(old(w.err)) && isnil(old(w.buf)) ==> err == nil && w.wd.$nsunk == old(w.wd.$nsunk)
-//@   ensures isnil(old(w.err)) && !isnil(old(w.buf)) ==> w.wd.$nsunk == old(w.wd.$nsunk) + 1 && len(w.wd.$sunk) == old(len(w.buf))
-//@   ensures isnil(old(w.err)) && !isnil(old(w.buf)) ==> sunkPending(w)
-//@   ensures isnil(old(w.err)) && !isnil(old(w.buf)) ==> sunkBuf(w)
+//@   ensures wrLive(w) && !wrIsFake(w) ==> w.wd.$nsunk == old(w.wd.$nsunk) + 1 && len(w.wd.$sunk) == old(len(w.buf))
+//@   ensures wrLive(w) && !wrIsFake(w) ==> outPending(w, w.wd.$sunk)
+//@   ensures wrLive(w) && !wrIsFake(w) ==> outBuf(w, w.wd.$sunk)
+//@   ensures wrLive(w) && wrIsFake(w) ==> err == nil && len(*astype(w.wd, *fakeIOWriter).bw.flushBytes) == old(len(w.buf)) && region(*astype(w.wd, *fakeIOWriter).bw.flushBytes) == old(region(w.buf)) && offset(*astype(w.wd, *fakeIOWriter).bw.flushBytes) == old(offset(w.buf))
+//@   ensures wrLive(w) && wrIsFake(w) ==> outPending(w, *astype(w.wd, *fakeIOWriter).bw.flushBytes)
+//@   ensures wrLive(w) && wrIsFake(w) ==> outBuf(w, *astype(w.wd, *fakeIOWriter).bw.flushBytes)
 //@   ensures err == nil ==> isnil(w.buf) && len(w.pendingBuf) == 0
 //@   ensures err != nil && isnil(old(w.err)) ==> same(w.err, err) && same(w.buf, old(w.buf)) && same(w.pendingBuf, old(w.pendingBuf))
 //@   assigns w.buf, w.pendingBuf, w.err, w.maxSizeStats, w.buf[0:len(w.buf)], w.wd.$nsunk, w.wd.$sunk
+//@   assigns forall g int :: wrOwns(w, g) ==> g.$pool
+//@   assigns wrIsFake(w) ==> *astype(w.wd, *fakeIOWriter).bw.flushBytes
 //@   loop 1 invariant -1 <= rangeindex && rangeindex < len(w.pendingBuf) && offset == pbLo(w, rangeindex + 1)
 //@   loop 1 invariant forall j int :: 0 <= j && j <= rangeindex ==> eqbytes(w.buf, pbLo(w, j), w.pendingBuf[j], pbLo(w, j), len(w.pendingBuf[j]) - pbLo(w, j))
 //@   loop 1 invariant eqbytes(w.buf, offset, old(snap(w.buf)), offset, len(w.buf) - offset)
-//@   loop 2 invariant true
+//@   loop 2 invariant -1 <= rangeindex && (forall j int :: rangeindex < j && j < len(w.pendingBuf) ==> region(w.pendingBuf[j]).$pool == 1)
+
+// The sink of a bytes writer publishes the flushed buffer as the caller's slice.
+//@ func fakeIOWriter.Write
+//@   arith int
+//@   props C05, C09
+//@   requires !isnil(w.bw) && !isnil(w.bw.flushBytes)
+//@   ensures n == len(p) && err == nil && same(*w.bw.flushBytes, p)
+//@   assigns *w.bw.flushBytes
+
+//@ model BytesWriter.$wlen = len(self.buf)
+
+//@ func NewDefaultWriter
+//@   arith int
+//@   props C05, C09
+//@   requires !isnil(wd) && !istype(wd, *fakeIOWriter)
+//@   ensures fresh(ret) && wrInv(ret) && wrPool(ret) && same(ret.wd, wd) && isnil(ret.buf) && len(ret.pendingBuf) == 0 && isnil(ret.err) && !ret.disableCache
+
+// NewBytesWriter: the writer starts with the caller's slice as its buffer (WrittenLen ==
+// len(*buf)), never uses the pool, and its sink writes back through buf.
+//@ func NewBytesWriter
+//@   arith int
+//@   props C05, C09
+//@   requires !isnil(buf) && (isnil(*buf) || writable(*buf))
+//@   ensures fresh(ret) && wrInv(ret) && wrPool(ret) && same(ret.buf, *buf) && len(ret.pendingBuf) == 0 && isnil(ret.err) && ret.disableCache
+//@   ensures wrIsFake(ret) && astype(ret.wd, *fakeIOWriter).bw == ret && ret.flushBytes == buf
